@@ -10,6 +10,7 @@ import (
 	"github.com/thushan/olla/internal/core/domain"
 	"github.com/thushan/olla/internal/core/ports"
 	"github.com/thushan/olla/internal/logger"
+	"github.com/thushan/olla/internal/verifhook"
 )
 
 // DiscoveryStrategy refreshes model discovery before deciding
@@ -122,6 +123,7 @@ func (s *DiscoveryStrategy) GetRoutableEndpoints(
 	defer cancel()
 
 	// trigger discovery refresh
+	verifhook.Point("routing.refresh", modelName)
 	startTime := time.Now()
 	if err := s.discovery.RefreshEndpoints(discoveryCtx); err != nil {
 		s.logger.Warn("Discovery refresh failed",
